@@ -121,5 +121,17 @@ func init() {
 		}
 		return args[0]
 	}
+	// vfMapOrder selects how `range` walks maps from now on: 0 insertion order, 1 reverse insertion
+	// order, k >= 2: insertion order except that up to k-1 individual range statements, chosen by
+	// fork, run in reverse. Go's order is unspecified; this exposes order dependence.
+	harnessAPI["vfMapOrder"] = func(m *Machine, args []Value) Value {
+		k := m.ConcInt(args[0])
+		m.mapReverse = k == 1
+		m.mapFlips = 0
+		if k >= 2 {
+			m.mapFlips = k - 1 // adversarial: up to k-1 individual `range` statements (chosen by fork) run reversed
+		}
+		return nil
+	}
 	harnessAPI["vfSymbolic"] = func(m *Machine, args []Value) Value { return m.C.True }
 }
